@@ -23,7 +23,7 @@ PID = "C08"
 RULE = (
     "Hypothesis-generated task signatures (exec'd source so inspect/get_type_hints/DependencyGraph see real "
     "functions): 1-6 parameters, each un-annotated / Any / int / float / str / bool / List[int] / Dict[str,int] / "
-    "Optional[int] / pydantic model / dataclass, positional-or-keyword or keyword-only, with or without default, "
+    "Optional[int] / pydantic model / dataclass / two factory-built pydantic models that are distinct classes with an identical repr, positional-or-keyword or keyword-only, with or without default, "
     "TaskiqDepends parameters at any position; a VALID call split (positional prefix up to the first dependency or "
     "omitted parameter, the rest by keyword, defaults optionally omitted); values JSON-exact (None, bool, ints incl. "
     ">64 bit, finite floats, surrogate-free text, nested lists/dicts) or model/dataclass instances; validate_params "
@@ -52,9 +52,17 @@ class D:
     b: typing.List[int] = dataclasses.field(default_factory=list)
 
 
-ANN = {"none": None, "Any": "typing.Any", "int": "int", "float": "float", "str": "str", "bool": "bool", "List[int]": "typing.List[int]",
+def _payload(fields: Dict[str, Any]) -> Any:
+    """Factory-built models: distinct classes that print the same (`<class 'vt.props.c08.Payload'>`)."""
+    return pydantic.create_model("Payload", __module__=__name__, **fields)
+
+
+MA = _payload({"x": (int, ...), "y": (str, "d")})
+MB = _payload({"k": (int, ...)})
+
+ANN = {"MA": "MA", "MB": "MB", "none": None, "Any": "typing.Any", "int": "int", "float": "float", "str": "str", "bool": "bool", "List[int]": "typing.List[int]",
        "Dict[str,int]": "typing.Dict[str, int]", "Optional[int]": "typing.Optional[int]", "M": "M", "D": "D"}
-ANN_OBJ = {"Any": typing.Any, "int": int, "float": float, "str": str, "bool": bool, "List[int]": typing.List[int],
+ANN_OBJ = {"MA": MA, "MB": MB, "Any": typing.Any, "int": int, "float": float, "str": str, "bool": bool, "List[int]": typing.List[int],
            "Dict[str,int]": typing.Dict[str, int], "Optional[int]": typing.Optional[int], "M": M, "D": D}
 
 SCAL = st.one_of(st.none(), st.booleans(), st.integers(-2**70, 2**70), st.floats(allow_nan=False, allow_infinity=False),
@@ -77,10 +85,10 @@ def cases() -> Any:
     free = st.lists(_param(st.sampled_from(sorted(ANN) + ["none", "none", "int", "float", "bool"]), VALUE,
                            st.sampled_from([False, False, False, True]), st.booleans(), st.sampled_from([False] * 7 + [True]),
                            st.sampled_from([False, False, False, True]), st.sampled_from([False, False, False, True])), min_size=1, max_size=6)
-    drift = st.lists(_param(st.sampled_from(["none", "none", "Any", "int", "float", "str", "bool", "List[int]", "Dict[str,int]", "M", "D", "Optional[int]"]),
+    drift = st.lists(_param(st.sampled_from(["none", "none", "Any", "int", "float", "str", "bool", "List[int]", "Dict[str,int]", "M", "D", "Optional[int]", "MA", "MB"]),
                             AMBIG, st.just(False), st.sampled_from([False, False, True]), st.just(False), st.just(False), st.just(False)),
                      min_size=2, max_size=6)
-    mixed = st.lists(_param(st.sampled_from(["none", "Any", "int", "int", "float", "str", "bool", "List[int]", "Dict[str,int]", "M", "D"]),
+    mixed = st.lists(_param(st.sampled_from(["none", "Any", "int", "int", "float", "str", "bool", "List[int]", "Dict[str,int]", "M", "D", "MA", "MB"]),
                             AMBIG, st.sampled_from([False, False, False, False, True]), st.sampled_from([False, False, True]),
                             st.sampled_from([False] * 9 + [True]), st.sampled_from([False, False, False, True]), st.sampled_from([False, False, False, True])),
                      min_size=3, max_size=6)
@@ -176,7 +184,7 @@ def run_case(c: Dict[str, Any]) -> Outcome:
     if kwo:
         sig += (", " if sig else "") + "*, " + ", ".join(f for p, f in plist if p["kwonly"])
     got: Dict[str, Any] = {}
-    ns = {"typing": typing, "M": M, "D": D, "Context": Context, "TaskiqDepends": TaskiqDepends, "GOT": got, "__name__": __name__}
+    ns = {"typing": typing, "M": M, "D": D, "MA": MA, "MB": MB, "Context": Context, "TaskiqDepends": TaskiqDepends, "GOT": got, "__name__": __name__}
     allnames = [names[id(p)] for p, _ in plist]
     body = "    GOT.update(dict(" + ", ".join(f"{n}={n}" for n in allnames) + "))\n"
     exec(("async def" if c["is_async"] else "def") + f" task({sig}):\n" + body, ns)
